@@ -1,5 +1,5 @@
 from .. import facts
-from ..rules import geometry, region, image, tables, gradient, opacity
+from ..rules import geometry, region, image, tables, gradient, opacity, status
 
 
 def run(ck):
@@ -18,3 +18,4 @@ def run(ck):
     image.r_validate_clears_dirty(ck, P, 'C14-R9')
     gradient.r4_sentinel_contents(ck, P)  # C13-R4: the hook re-derives the sentinel stops from the current repeat mode and stops
     opacity.r9_solid_substitution_excludes_kernels(ck, P, 'C14-R10')   # the derived format code depends on the current filter
+    status.r_wide_only_properties_reach_the_flags(ck, P, 'C14-R11')   # the dither setting is a property the flags must follow
